@@ -206,6 +206,8 @@ pub(crate) struct Run<'a> {
     done_seen: bool,
     top_ops: usize,
     quiesce_run: bool,
+    /// refused or panicking pushes so far (C15: they must not disturb the held futures)
+    refusals: u32,
 }
 
 fn fnv(h: &mut u64, x: u64) {
@@ -515,6 +517,7 @@ impl<'a> Run<'a> {
                 }
             }
             PushRes::Refused(back) => {
+                self.refusals += 1;
                 w(|w| {
                     w.children[id as usize].refused = true;
                     if back != id {
@@ -530,6 +533,7 @@ impl<'a> Run<'a> {
                 }
             }
             PushRes::Panicked => {
+                self.refusals += 1;
                 w(|w| {
                     w.children[id as usize].refused = true;
                     if expect_accept {
@@ -740,6 +744,9 @@ impl<'a> Run<'a> {
                     let front = self.model[0];
                     w.violate("C04", "queue-ended-before-front", format!("{:?}: the reference queue still holds future {} at its front, but poll_next returned None", cfg.kind, front));
                 }
+                if self.refusals > 0 {
+                    w.violate("C15", "refusal-disturbed-held-futures", format!("{:?}: after a refused/panicking push, poll_next returned None while {} accepted future(s) are still held", cfg.kind, self.model.len()));
+                }
             }
             if cfg.kind.is_merge() {
                 let live = w.children.iter().filter(|c| c.accepted && c.drops == 0 && !c.completed).count();
@@ -786,11 +793,22 @@ impl<'a> Run<'a> {
         if cfg.kind.is_collection() {
             let pos = self.model.iter().position(|&x| x == id);
             match pos {
-                None => w(|w| w.violate("C02", "yielded-unknown-or-twice", format!("{:?}: yielded the output of future {} which is not held (never accepted or already yielded)", cfg.kind, id))),
+                None => w(|w| {
+                    w.violate("C02", "yielded-unknown-or-twice", format!("{:?}: yielded the output of future {} which is not held (never accepted or already yielded)", cfg.kind, id));
+                    if w.children.get(id as usize).map_or(false, |c| c.refused) {
+                        w.violate("C15", "refused-future-was-kept", format!("{:?}: future {} was refused by a push and yet its output was yielded", cfg.kind, id));
+                    }
+                }),
                 Some(p) => {
                     if cfg.kind.is_ordered() && p != 0 {
                         let front = self.model[0];
-                        w(|w| w.violate("C04", "out-of-queue-order", format!("{:?}: yielded future {} although future {} is ahead of it in the queue", cfg.kind, id, front)));
+                        let refusals = self.refusals;
+                        w(|w| {
+                            w.violate("C04", "out-of-queue-order", format!("{:?}: yielded future {} although future {} is ahead of it in the queue", cfg.kind, id, front));
+                            if refusals > 0 {
+                                w.violate("C15", "refusal-disturbed-held-futures", format!("{:?}: after a refused/panicking push the yield order changed (future {} before {})", cfg.kind, id, front));
+                            }
+                        });
                     }
                     self.model.remove(p);
                 }
@@ -875,6 +893,14 @@ impl<'a> Run<'a> {
                     .filter(|(_, c)| c.accepted && c.drops == 0 && !c.completed && c.owed && c.accept_time < start)
                     .map(|(i, _)| i as u32)
                     .collect();
+                if !owed.is_empty() && w.child_polls_in_call > 0 {
+                    let n = w.child_polls_in_call;
+                    w.violate(
+                        "C13",
+                        "stopped-early-without-waking-task",
+                        format!("{:?}: the last poll polled {} child(ren), returned Pending with ready child(ren) {:?} still un-polled, and did not wake its task: the rest is forgotten", cfg.kind, n, &owed[..owed.len().min(4)]),
+                    );
+                }
                 if !owed.is_empty() {
                     let lw = w.last_poll_waker;
                     w.violate(
@@ -1077,6 +1103,9 @@ impl<'a> Run<'a> {
                     } else if cfg.kind.is_collection() && left > 0 {
                         w.violate("C02", "accepted-never-yielded", format!("{:?}: {} accepted future(s) were never yielded", cfg.kind, left));
                     }
+                    if self.refusals > 0 && ((cfg.kind.is_collection() && (!finished || left > 0)) || (cfg.kind.is_merge() && !finished)) {
+                        w.violate("C15", "refusal-disturbed-held-futures", format!("{:?}: after a refused/panicking push, {} held future(s) were never yielded", cfg.kind, left));
+                    }
                     if cfg.kind.is_collection() && cfg.kind.is_ordered() && left > 0 {
                         w.violate("C04", "queue-item-never-yielded", format!("{:?}: the yielded sequence stops short of the reference queue ({} item(s) missing)", cfg.kind, left));
                     }
@@ -1218,6 +1247,9 @@ impl<'a> Run<'a> {
             }
             for i in 0..w.toks.len() {
                 let t = &w.toks[i];
+                if t.plain {
+                    continue;
+                }
                 if t.drops != 1 {
                     let (d, id, h) = (t.drops, t.id, t.handed);
                     w.violate(
@@ -1254,7 +1286,7 @@ impl<'a> Run<'a> {
 fn probe_alloc(base: *mut u8, size: usize) {
     callback(|| {
         w(|w| {
-            w.blocks.push(Block { base: base as usize, size, align: 0, released: 0 });
+            w.blocks.push(Block { snapshot: Vec::new(), base: base as usize, size, align: 0, released: 0 });
         })
     })
 }
@@ -1288,8 +1320,13 @@ fn probe_release(base: *mut u8, size: usize, align: usize) -> bool {
                         w.violate("C03", "released-while-waker-outstanding", format!("waker block {:#x} released while the environment still holds a waker into it", b));
                     }
                     if w.defer_free {
-                        // poison the released block: any later write into it is found at the end of the run
-                        unsafe { std::ptr::write_bytes(base, 0xDD, size) };
+                        // remember the released block's bytes: any later write into it is found at the
+                        // end of the run (the memory stays mapped and intact, so a buggy late access is
+                        // observed by the probes instead of crashing the explorer)
+                        let snap = unsafe { std::slice::from_raw_parts(base as *const u8, size) }.to_vec();
+                        if let Some(x) = w.blocks.iter_mut().rev().find(|x| x.base == b) {
+                            x.snapshot = snap;
+                        }
                     }
                     w.defer_free
                 }
@@ -1330,11 +1367,11 @@ pub fn install_probes() {
 }
 
 fn free_deferred() {
-    let blocks: Vec<(usize, usize, usize, u32)> = w(|w| w.blocks.drain(..).map(|b| (b.base, b.size, b.align, b.released)).collect());
-    for (base, size, align, released) in blocks {
+    let blocks: Vec<(usize, usize, usize, u32, Vec<u8>)> = w(|w| w.blocks.drain(..).map(|b| (b.base, b.size, b.align, b.released, b.snapshot)).collect());
+    for (base, size, align, released, snap) in blocks {
         if released >= 1 && align != 0 {
             let bytes = unsafe { std::slice::from_raw_parts(base as *const u8, size) };
-            if let Some(off) = bytes.iter().position(|b| *b != 0xDD) {
+            if let Some(off) = (0..size.min(snap.len())).find(|&i| bytes[i] != snap[i]) {
                 let v = bytes[off];
                 w(|w| {
                     w.violations.push(Violation {
@@ -1400,6 +1437,7 @@ pub(crate) fn begin<'a>(cfg: &'a Cfg, prefix: &[u8], log_on: bool) -> Run<'a> {
         done_seen: false,
         top_ops: 0,
         quiesce_run: false,
+        refusals: 0,
     }
 }
 
@@ -1410,7 +1448,7 @@ impl<'a> Run<'a> {
         let pre: Vec<u32> = cfg.prefill.iter().map(|s| self.new_child(s)).collect();
         let by_ctor = matches!(
             cfg.kind,
-            Kind::FubIter(_) | Kind::FuIter(_) | Kind::FobIter(_) | Kind::FoIter(_) | Kind::Mb(_) | Kind::Mu(_) | Kind::Ja(_) | Kind::Tja(_)
+            Kind::FubIter(_) | Kind::FuIter(_) | Kind::FobIter(_) | Kind::FoIter(_) | Kind::Mb(_) | Kind::Mu(_) | Kind::Ja(_) | Kind::Tja(_) | Kind::JaP(_) | Kind::TjaP(_)
         );
         let subj = build(cfg.kind, if by_ctor { &pre } else { &[] });
         match subj {
